@@ -318,6 +318,14 @@ func (db *DB) OpenTransaction() (*Transaction, error) {
 		if _, err := db.rotateMem(0, true); err != nil {
 			return nil, err
 		}
+	} else if fm := db.getFrozenMem(); fm != nil {
+		// The live memdb is empty but the previous one is still being flushed.
+		// Wait for it: transaction tables must never become visible (or be
+		// recorded) ahead of older writes that only live in a frozen memdb.
+		fm.decref()
+		if err := db.compTriggerWait(db.mcompCmdC); err != nil {
+			return nil, err
+		}
 	}
 
 	// Wait compaction when certain threshold reached.
